@@ -262,7 +262,7 @@ func runChild(v *variant, progs []program, dir string) {
 	// a file in the cwd whose name and content are secrets: a default preopen of "." would show it
 	os.WriteFile(filepath.Join(cwd, v.Secrets[4]), []byte(v.Secrets[4]), 0o644)
 	time.Sleep(time.Duration(v.DelayMs) * time.Millisecond)
-	cmd := exec.Command(self, "-c18child", jobPath, "-c18tag", v.Secrets[1])
+	cmd := hx.Supervised(exec.Command(self, "-c18child", jobPath, "-c18tag", v.Secrets[1]))
 	cmd.Dir = cwd
 	cmd.Env = []string{
 		"PATH=" + os.Getenv("PATH"), "HOME=/nonexistent-" + v.Secrets[0],
